@@ -131,8 +131,12 @@ class ModuleInfo:
             self.tree = ast.parse(text)
         except SyntaxError as e:
             raise AnalysisError('cannot parse %s: %s' % (path, e))
+        self.decomposition_log: List[str] = []
         if name == 'yatiml' or name.startswith('yatiml.'):
             from .normalize import normalize
+            from .inline import canonical_decomposition
+            if not os.environ.get('SA_NO_INLINE'):
+                self.decomposition_log = canonical_decomposition(self.tree, name)
             self.tree = normalize(self.tree)
         self.sha256 = hashlib.sha256(text.encode()).hexdigest()
         self.imports: Dict[str, str] = {}     # local name -> dotted target
